@@ -344,8 +344,11 @@ func unitBody(u flow.FuncUnit) *ast.BlockStmt {
 // return that call's results (ProveInsertion → ProveInsertionContext(context.Background(), params)); the target is
 // returned. Such wrappers are not analysed as provers/verifiers themselves — the target is.
 func delegateTarget(fn *ssa.Function) *ssa.Function {
-	if fn == nil || len(fn.Blocks) != 1 || fn.Signature.Recv() == nil || len(fn.Params) == 0 {
+	if fn == nil || len(fn.Blocks) != 1 || len(fn.Params) == 0 {
 		return nil
+	}
+	if fn.Signature.Recv() == nil {
+		return delegateTargetFunc(fn)
 	}
 	var target *ssa.Function
 	var call *ssa.Call
@@ -407,4 +410,72 @@ func requestParamIndex(fn *ssa.Function) int {
 		}
 	}
 	return -1
+}
+
+// delegateTargetFunc: the same for a plain function — its single in-repo call receives every one of its parameters (Run →
+// RunWithContext(context.Background(), config, provingSystem)) and its results are returned unchanged.
+func delegateTargetFunc(fn *ssa.Function) *ssa.Function {
+	var target *ssa.Function
+	var call *ssa.Call
+	for _, in := range fn.Blocks[0].Instrs {
+		switch x := in.(type) {
+		case *ssa.Call:
+			callee := x.Common().StaticCallee()
+			if callee == nil {
+				return nil
+			}
+			if core.InRepo(pkgPathOf(callee)) {
+				if target != nil {
+					return nil
+				}
+				for _, prm := range fn.Params {
+					found := false
+					for _, a := range x.Common().Args {
+						if a == ssa.Value(prm) {
+							found = true
+						}
+					}
+					if !found {
+						return nil
+					}
+				}
+				target, call = callee, x
+				continue
+			}
+			if callee.Pkg == nil || callee.Pkg.Pkg.Path() != "context" {
+				return nil
+			}
+		case *ssa.Extract:
+			if x.Tuple != ssa.Value(call) {
+				return nil
+			}
+		case *ssa.Return:
+			for _, rv := range x.Results {
+				if e, ok := rv.(*ssa.Extract); ok && call != nil && e.Tuple == ssa.Value(call) {
+					continue
+				}
+				if call != nil && rv == ssa.Value(call) {
+					continue
+				}
+				return nil
+			}
+		case *ssa.MakeInterface, *ssa.ChangeType, *ssa.Convert, *ssa.DebugRef:
+		default:
+			return nil
+		}
+	}
+	return target
+}
+
+// serverRunFn: server.Run, or the function that holds its body when Run merely delegates.
+func serverRunFn(p *core.Program) *ssa.Function {
+	fn := p.Func("server", "Run")
+	for i := 0; fn != nil && i < 3; i++ {
+		t := delegateTarget(fn)
+		if t == nil {
+			break
+		}
+		fn = t
+	}
+	return fn
 }
